@@ -216,6 +216,9 @@ func (svc *service) stop() {
 	if !doit {
 		return
 	}
+	verifEvent("stop.begin", svc, 0)
+	defer verifEvent("stop.done", svc, 0)
+	verifMark(verifMarkStop, svc)
 
 	// Close quit channel, effectively telling all the goroutines it's time to quit
 	if svc.done != nil {
@@ -278,6 +281,7 @@ func (svc *service) publish(msg *message.PublishMessage, onComplete OnCompleteFu
 	if err != nil {
 		return fmt.Errorf("(%s) Error sending %s message: %v", svc.cid(), msg.Name(), err)
 	}
+	verifYield("publish.afterwrite", svc)
 
 	switch msg.QoS() {
 	case message.QosAtMostOnce:
@@ -306,6 +310,7 @@ func (svc *service) subscribe(msg *message.SubscribeMessage, onComplete OnComple
 	if err != nil {
 		return fmt.Errorf("(%s) Error sending %s message: %v", svc.cid(), msg.Name(), err)
 	}
+	verifYield("subscribe.afterwrite", svc)
 
 	var onc OnCompleteFunc = func(msg, ack message.Message, err error) error {
 		onComplete := onComplete
@@ -382,6 +387,7 @@ func (svc *service) unsubscribe(msg *message.UnsubscribeMessage, onComplete OnCo
 	if err != nil {
 		return fmt.Errorf("(%s) Error sending %s message: %v", svc.cid(), msg.Name(), err)
 	}
+	verifYield("unsubscribe.afterwrite", svc)
 
 	var onc OnCompleteFunc = func(msg, ack message.Message, err error) error {
 		onComplete := onComplete
@@ -446,6 +452,7 @@ func (svc *service) ping(onComplete OnCompleteFunc) error {
 	if err != nil {
 		return fmt.Errorf("(%s) Error sending %s message: %v", svc.cid(), msg.Name(), err)
 	}
+	verifYield("ping.afterwrite", svc)
 
 	return svc.sess.Pingack.Wait(msg, onComplete)
 }
